@@ -20,7 +20,8 @@ pub fn prop() -> Prop {
                return exactly the intended elements, and parse(to_string(kp)) == kp when names need no escapes. \
                reject: renderings made invalid by construction (missing brace, unterminated quote, trailing or \
                doubled comma, junk after the closing brace, two lists, a digit string that overflows i32, a name \
-               starting with a digit or sign). raw: token soups and raw bytes must never panic. Non-trivial = \
+               starting with a digit or sign). raw: token soups and raw bytes are judged differentially against a \
+               reference recognizer of the brace-list grammar (accepted iff the reference accepts, same elements), never a panic. Non-trivial = \
                list with >= 2 elements of >= 2 kinds, or any reject case. Distinct = distinct input text.",
         assumptions: &["the printer in this file emits only forms of the documented brace-list grammar"],
         subs: vec![
@@ -222,8 +223,15 @@ fn run_reject(ctx: &mut Ctx) {
             }
             4 => format!("{t}{}", ["x", "}", "{", ",", "\"", "1"][pick(sel, 6)]),
             5 => format!("{t}{t}"),
-            6 => format!("{{{}}}", ["2147483648", "-2147483649", "99999999999", "+2147483648"][pick(sel, 4)]),
-            7 => format!("{{{}}}", ["1a", "-a", "+a", "9z", "-", "+"][pick(sel, 6)]),
+            // digits that overflow i32, alone or followed by name characters: neither an index
+            // nor a plain name (plain names do not start with a digit)
+            6 => {
+                let digits = ["2147483648", "99999999999", "4294967296", "30000000000000000000", "2147483650"][pick(sel, 5)];
+                let suffix = ["", "", "a", "x_y", "abc", "é", "e9", "_"][pick(sel >> 4, 8)];
+                let sign = ["", "", "", "-", "+"][pick(sel >> 8, 5)];
+                format!("{{{sign}{digits}{suffix}}}")
+            }
+            7 => format!("{{{}}}", ["1a", "-a", "+a", "9z", "-", "+", "0x10", "1_000", "12abc", "-2147483649", "7é"][pick(sel, 11)]),
             _ => {
                 let i = t.find(',')?;
                 format!("{},{}", &t[..i], &t[i..])
@@ -231,6 +239,136 @@ fn run_reject(ctx: &mut Ctx) {
         })
     });
     run_strategy(ctx, "C16", "reject", cases, strat, check_reject);
+}
+
+// ---- reference recognizer for the brace-list grammar (differential oracle on raw input) --------
+
+fn is_ws(c: u8) -> bool {
+    matches!(c, b' ' | b'\t' | b'\r' | b'\n')
+}
+fn is_name_terminator(c: u8) -> bool {
+    is_ws(c)
+        || matches!(
+            c,
+            b',' | b'.' | b':' | b'{' | b'}' | b'[' | b']' | b'(' | b')' | b'?' | b'@' | b'$' | b'|' | b'&' | b'<' | b'>' | b'!' | b'=' | b'+' | b'-'
+                | b'*' | b'/' | b'%' | b'"' | b'\''
+        )
+}
+/// decodes the escapes of a name or string body exactly like a JSON string body (the
+/// parsers share the decoder): short escapes, \uXXXX, \u{XXXX}, surrogate pairs, unpaired
+/// surrogates kept literally; raw control characters allowed; must be UTF-8
+fn decode_body(body: &[u8]) -> Result<String, ()> {
+    let mut quoted = vec![b'"'];
+    // an unescaped quote cannot occur in a body (it would have ended it); a body of a raw
+    // name may not contain one either. Re-use the reference JSON string reader.
+    quoted.extend_from_slice(body);
+    quoted.push(b'"');
+    match crate::textref::ref_parse(&quoted, crate::textref::Mode::Relaxed) {
+        Ok(crate::model::M::Str(s)) => Ok(s),
+        _ => Err(()),
+    }
+}
+/// length of an escape starting at body[i] == '\\' by the scanners' positional rule
+fn escape_len(b: &[u8], i: usize) -> Option<usize> {
+    if i + 1 >= b.len() {
+        return None;
+    }
+    if b[i + 1] == b'u' {
+        if i + 5 >= b.len() {
+            return None;
+        }
+        if b[i + 2] == b'{' {
+            if i + 7 >= b.len() {
+                return None;
+            }
+            Some(8)
+        } else {
+            Some(6)
+        }
+    } else {
+        Some(2)
+    }
+}
+
+pub fn ref_key_paths(b: &[u8]) -> Result<Vec<KP>, ()> {
+    let mut i = 0;
+    let skip = |i: &mut usize| {
+        while *i < b.len() && is_ws(b[*i]) {
+            *i += 1;
+        }
+    };
+    skip(&mut i);
+    if b.get(i) != Some(&b'{') {
+        return Err(());
+    }
+    i += 1;
+    let mut out = vec![];
+    skip(&mut i);
+    if b.get(i) == Some(&b'}') {
+        i += 1;
+        skip(&mut i);
+        return if i == b.len() { Ok(out) } else { Err(()) };
+    }
+    loop {
+        skip(&mut i);
+        let c = *b.get(i).ok_or(())?;
+        if c == b'+' || c == b'-' || c.is_ascii_digit() {
+            let s = i;
+            if c == b'+' || c == b'-' {
+                i += 1;
+            }
+            let d0 = i;
+            while i < b.len() && b[i].is_ascii_digit() {
+                i += 1;
+            }
+            if i == d0 {
+                return Err(()); // a bare sign
+            }
+            let txt = std::str::from_utf8(&b[s..i]).unwrap();
+            let v: i32 = txt.trim_start_matches('+').parse().map_err(|_| ())?;
+            out.push(KP::Index(v));
+        } else if c == b'"' {
+            i += 1;
+            let s = i;
+            loop {
+                match b.get(i) {
+                    None => return Err(()),
+                    Some(b'"') => break,
+                    Some(b'\\') => i += escape_len(b, i).ok_or(())?,
+                    Some(_) => i += 1,
+                }
+                if i > b.len() {
+                    return Err(());
+                }
+            }
+            out.push(KP::Quoted(decode_body(&b[s..i])?));
+            i += 1;
+        } else {
+            let s = i;
+            while i < b.len() && !is_name_terminator(b[i]) {
+                if b[i] == b'\\' {
+                    i += escape_len(b, i).ok_or(())?;
+                } else {
+                    i += 1;
+                }
+            }
+            if i == s || i > b.len() {
+                return Err(());
+            }
+            let body = &b[s..i];
+            out.push(KP::Name(decode_body(body)?));
+        }
+        skip(&mut i);
+        match b.get(i) {
+            Some(b',') => i += 1,
+            Some(b'}') => {
+                i += 1;
+                skip(&mut i);
+                return if i == b.len() { Ok(out) } else { Err(()) };
+            }
+            _ => return Err(()),
+        }
+    }
 }
 
 const TOKENS: &[&str] = &[
@@ -243,7 +381,16 @@ pub fn check_raw(b: &Bytes, obs: &mut Obs) -> Result<(), String> {
     obs.ident = Some(crate::model::hex(&b.0));
     let r = parse(&b.0)?;
     obs.label(if r.is_ok() { "raw-accepted" } else { "raw-rejected" });
-    Ok(())
+    // differential: accepted exactly when it is a brace list of the documented form, with
+    // the same elements
+    let want = ref_key_paths(&b.0);
+    match (&r, &want) {
+        (Ok(g), Ok(w)) if g == w => Ok(()),
+        (Err(_), Err(())) => Ok(()),
+        (Ok(g), Ok(w)) => Err(format!("{:?} parses as {g:?}, the documented reading is {w:?}", String::from_utf8_lossy(&b.0))),
+        (Ok(g), Err(())) => Err(format!("{:?} is not a key path of the documented form but was accepted as {g:?}", String::from_utf8_lossy(&b.0))),
+        (Err(e), Ok(w)) => Err(format!("{:?} is a key path denoting {w:?} but was rejected ({e})", String::from_utf8_lossy(&b.0))),
+    }
 }
 
 fn run_raw(ctx: &mut Ctx) {
